@@ -210,10 +210,18 @@ def _sequences(acc, P, _parser, w, st):
             ctx = make_creds('context', first[0], first[1],
                              not (first[0] or first[1]), 'system_scope',
                              'missing', 'r')
-            for step, (has_sys, has_dom) in enumerate((first, second, first)):
-                ctx.system_scope = 'all' if has_sys else None
-                ctx.domain_id = 'd1' if has_dom else None
-                ctx.project_id = None if (has_sys or has_dom) else 'p1'
+            for step, (has_sys, has_dom) in enumerate((first, second, first,
+                                                       second, first)):
+                if step < 3:
+                    # the SAME object, re-scoped in place
+                    ctx.system_scope = 'all' if has_sys else None
+                    ctx.domain_id = 'd1' if has_dom else None
+                    ctx.project_id = None if (has_sys or has_dom) else 'p1'
+                else:
+                    # ... then brand-new context objects on the same enforcer
+                    ctx = make_creds('context', has_sys, has_dom,
+                                     not (has_sys or has_dom), 'system_scope',
+                                     'missing', 'r')
                 if how == 'object':
                     rule = _parser.parse_rule('@')
                     rule.scope_types = list(st) if st else None
